@@ -9,6 +9,7 @@ import (
 	"bytes"
 	"fmt"
 	"math/rand"
+	"runtime"
 	"testing"
 	"time"
 
@@ -287,10 +288,13 @@ type c01Cfg struct {
 	Enc      bool
 	Compress bool
 	Reclaim  time.Duration
+	// the node has an Alive delegate whose callback yields the processor many times (it must not sleep:
+	// the code calls it under its node lock), opening a window for whatever else is runnable
+	AliveYield bool
 }
 
 func (c c01Cfg) String() string {
-	return fmt.Sprintf("label=%q enc=%v comp=%v reclaim=%v", c.Label, c.Enc, c.Compress, c.Reclaim)
+	return fmt.Sprintf("label=%q enc=%v comp=%v reclaim=%v alive-delegate=%v", c.Label, c.Enc, c.Compress, c.Reclaim, c.AliveYield)
 }
 
 func newC01Rig(seed int64, cfg c01Cfg) (*Rig, *FakePeer, *FakePeer, error) {
@@ -298,7 +302,7 @@ func newC01Rig(seed int64, cfg c01Cfg) (*Rig, *FakePeer, *FakePeer, error) {
 	if cfg.Enc {
 		key = bytes.Repeat([]byte{7}, 16)
 	}
-	rig, err := NewRig(RigOpts{Seed: seed, Label: cfg.Label, Key: key, Compress: cfg.Compress, Spec: NodeSpec{Name: "V", IP: "10.9.9.9", Mutate: func(cf *memberlist.Config) {
+	rig, err := NewRig(RigOpts{Seed: seed, Label: cfg.Label, Key: key, Compress: cfg.Compress, Spec: NodeSpec{Name: "V", IP: "10.9.9.9", WithAlive: cfg.AliveYield, Mutate: func(cf *memberlist.Config) {
 		cf.ProbeInterval = noProbe // no probing inside the horizon; suspicion timers stay pending
 		cf.PushPullInterval = 0
 		cf.DeadNodeReclaimTime = cfg.Reclaim
@@ -306,6 +310,16 @@ func newC01Rig(seed int64, cfg c01Cfg) (*Rig, *FakePeer, *FakePeer, error) {
 	}}})
 	if err != nil {
 		return nil, nil, nil, err
+	}
+	if cfg.AliveYield {
+		rig.V.mu.Lock()
+		rig.V.AliveVeto = func(*memberlist.Node) error {
+			for i := 0; i < 40; i++ {
+				runtime.Gosched()
+			}
+			return nil
+		}
+		rig.V.mu.Unlock()
 	}
 	x := rig.AddPeer("x", "10.9.1.1", 7946)
 	y := rig.AddPeer("y", "10.9.1.2", 7946)
@@ -534,7 +548,7 @@ func TestC01(t *testing.T) {
 	run.Assume("incarnation-0 alive about an unknown name leaves an invisible placeholder (treated as absent)", "push/pull entries in state dead count as suspicions (hearsay rule)", "probing disabled (ProbeInterval 1h) so suspicion timers do not expire inside a sequence")
 
 	cfgs := []c01Cfg{
-		{"", false, false, 0}, {"", false, false, 5 * time.Second}, {"lbl", true, false, 5 * time.Second}, {"", false, true, 5 * time.Second}, {"lbl", false, false, 0},
+		{"", false, false, 0, false}, {"", false, false, 5 * time.Second, false}, {"lbl", true, false, 5 * time.Second, false}, {"", false, true, 5 * time.Second, true}, {"lbl", false, false, 0, true},
 	}
 	// ---- explicit cross product ----
 	carriers := []string{"packet", "compound", "compress", "pp", "ppjoin"}
